@@ -207,6 +207,7 @@ class Facts:
             import inline
             import rename
             j, self.renamed = rename.apply(j)
+            j, self.renamed_fields = rename.apply_fields(j)
             j, self.inline_report = inline.apply(j)
         self.j = j
         self.root = root
